@@ -387,8 +387,24 @@ struct Driver {
         int nf2 = 0;
         for (auto& x : r2.spawns) if (x.reap_status != 0) nf2++;
         if (r.plan.k > 0 && nf2 >= r.plan.k) stopped_early = true;
-        if (!stopped_early)
-          w.Report("C05", "failure_logged", "statement " + std::to_string(fid) + " failed, yet the next build did not retry it");
+        if (!stopped_early) {
+          // K11's precondition is that the statement was out of date *only because an output was missing*
+          // (the failed run re-created it and an older record vouches for it). When every output was there
+          // before the failed run, whatever made the statement out of date - a newer input, another command
+          // line - is still true afterwards, record or no record: that is reported under a class of its own
+          bool was_missing = false;
+          for (auto& x : r.spawns) if (x.stmt == fid) {
+            for (auto& o : x.outs) if (!x.pre_outs.count(o)) was_missing = true;
+            // (a failed command may also have clobbered its own depfile, and with it ninja's knowledge of the
+            // header that made it out of date - the same family; only statements without discovered dependencies
+            // are judged strictly)
+            if (x.deps_kind != 0 || x.deps_kind_depfile) was_missing = true;
+            // (... provided ninja judged it by a build-log record: a generator statement without one is judged
+            // by its output's own time, which the failed run has just renewed - K11's other form)
+            for (auto& o : x.outs) if (!r.log_before.last.count(o)) was_missing = true;
+          }
+          w.Report("C05", was_missing ? "failure_logged" : "failure_not_retried", "statement " + std::to_string(fid) + " failed, yet the next build did not retry it" + (was_missing ? "" : " (all its outputs existed, with a build-log record each, before the failed run: what made it out of date still holds)"));
+        }
       }
     }
     if (budget_left) {
